@@ -57,8 +57,19 @@ def gen(rng, tier):
                 yield Case("ptadd", [c, hx(enc), hx(gmul(c, k2))], "add")
             if (k * k2) % o != 0:
                 yield Case("ptmul", [c, hx(enc), k2], "mul")
+        # every encoding family of a valid point, for the point class and the public key class: raw, uncompressed, both hybrids, both compressed prefixes
+        if c in ORD:
+            for _ in range(3 if tier == "quick" else 60):
+                k = rng.randrange(1, o)
+                raw = POINT[c].FromBytes(gmul(c, k)).RawDecoded().ToBytes()
+                x = raw[:32]
+                for form in (raw, b"\x04" + raw, b"\x06" + raw, b"\x07" + raw, b"\x02" + x, b"\x03" + x, b"\x05" + raw, b"\x04" + raw[:-1], raw + b"\x00"):
+                    yield Case("ptfrombytes", [c, hx(form)], "decode-forms")
+                    yield Case("pubkey", [c, hx(form)], "pubkey-forms")
         # scalars / keys: validity boundaries
-        for v in (0, 1, 2, o - 1, o, o + 1, 2**256 - 1):
+        for v in (0, 1, 2, o - 1, o, o + 1, 2**256 - 1, 2**255, 2**255 + 1, 2**255 + o - 1, 2**255 + o, 8 * o, 2 * o - 1, 2**252, 2**252 - 1, 2**252 + 1, 2**248, 2**253):
+            if v >= 2**256:
+                continue
             kb = v.to_bytes(32, "big") if c in ORD else v.to_bytes(32, "little")
             yield Case("privkey", [c, hx(kb)], "privkey-edge" if 0 < v < o else "neg-privkey")
         for ln in (0, 31, 33, 64):
